@@ -19,7 +19,7 @@ BUDGET = {'quick': 150, 'thorough': 1200}
 MODES = {'quick': [('J', 8), ('I', 8)], 'thorough': [('J', 8), ('I', 8)]}
 FLOORS = {'quick': {'triple_names_a_real_target': 300, 'exhaustive.exact': 30000, 'never_underestimated': 300, 'max_distance.respected': 100,
                     'single_target.exact': 30, 'unbounded.no_nan': 100, 'no_target_in_reach.nan': 80, 'metric.GREAT_CIRCLE': 40,
-                    'metric.MANHATTAN': 60, 'target_values.explicit': 60},
+                    'metric.MANHATTAN': 60, 'target_values.explicit': 60, 'target_values_not_float32_representable': 30},
           'thorough': {'triple_names_a_real_target': 3000, 'exhaustive.exact': 400000}}
 EXHAUSTIVE = {'quick': ['all 2^(H*W)-1 target layouts for every shape with min(H,W)<=3 and H*W<=12, metrics EUCLIDEAN and MANHATTAN, modes proximity/allocation/direction (captured kernel)'],
               'thorough': ['all 2^(H*W)-1 target layouts for every shape with min(H,W)<=3 and H*W<=16, metrics EUCLIDEAN and MANHATTAN, unit and non-square cell sizes']}
@@ -115,12 +115,13 @@ def judge_triple(rec, img, xs, ys, tvals, maxd, metric, P, A, D, pay, exact=Fals
     ty, tx = np.nonzero(T)
     dm = nr.dist_matrix(xs, ys, xs[ty, tx], ys[ty, tx], metric)          # (H, W, T)
     bm = nr.bearing_matrix(xs, ys, xs[ty, tx], ys[ty, tx])
-    tv = a64[ty, tx]
+    tv = a64[ty, tx].astype('float32').astype('float64')        # allocation is a float32 raster: it reports the target's value rounded to float32
+    a64f = a64.astype('float32').astype('float64')
     dstar = dm.min(axis=2)
     tl = 4 * E32 * np.maximum(dstar, 1e-30) + 1e-30
     # targets: 0 / own value / 0
-    if (P[T] != 0).any() or (D[T] != 0).any() or (A[T] != a64[T]).any():
-        i = tuple(int(v) for v in np.argwhere(T & ((P != 0) | (D != 0) | (A != a64)))[0])
+    if (P[T] != 0).any() or (D[T] != 0).any() or (A[T] != a64f[T]).any():
+        i = tuple(int(v) for v in np.argwhere(T & ((P != 0) | (D != 0) | (A != a64f)))[0])
         rec.violation('proximity.target_cell', 'target cell %s: proximity %r allocation %r (own value %r) direction %r' % (i, P[i], A[i], a64[i], D[i]), pay)
         return False
     rec.ok('targets_are_zero')
@@ -227,6 +228,15 @@ def check(rec, kind, idx, rng, tier):
     elif layout == 'line':
         img[:] = 0; img[int(rng.integers(0, H)), :] = rng.integers(1, 4, W)
     dt = str(rng.choice(['float64', 'float64', 'float32', 'int32', 'int64', 'uint8']))
+    # hostile target values: not representable in float32 (fractions, ids above 2**24, tiny magnitudes)
+    vclass = 'small'
+    if dt in ('float64', 'int64') and rng.random() < 0.3:
+        tm = img != 0
+        if dt == 'float64':
+            pool = np.array([0.1, 0.7, 1e-50, 123456.789, 16777217.0]); vclass = 'float64_not_float32'
+        else:
+            pool = np.array([2 ** 24 + 1, 2 ** 24 + 3, 2 ** 40 + 1, 5.0]); vclass = 'int_above_2^24'
+        img = np.where(tm, rng.choice(pool, size=img.shape), 0.0)
     img = img.astype(dt)
     if img.dtype.kind == 'f' and rng.random() < 0.3:
         m = rng.random((H, W)) < 0.1
@@ -234,6 +244,10 @@ def check(rec, kind, idx, rng, tier):
     tvals = None
     if rng.random() < 0.35:
         tvals = [float(v) for v in rng.choice([0, 1, 2, 3, 4, 9], size=int(rng.integers(1, 4)), replace=False)]
+        if vclass != 'small':
+            present = np.unique(img[(img != 0) & np.isfinite(img.astype('float64'))])
+            if len(present):
+                tvals = [v.item() for v in rng.choice(present, size=min(len(present), int(rng.integers(1, 3))), replace=False)] + [9.0]
     if metric == 'GREAT_CIRCLE':
         cx, cy = float(rng.choice([0.5, 1.0, 2.0, 10.0])), float(rng.choice([0.5, 1.0, 2.0, 5.0]))
         x0 = float(rng.uniform(-170, 170 - cx * W)) if cx * W < 340 else -170.0
@@ -267,6 +281,7 @@ def check(rec, kind, idx, rng, tier):
     ok = judge_triple(rec, img, xs, ys, tvals, eff_max, metric, P.data, A.data, D.data, pay)
     if ok:
         rec.ok('metric.' + metric); rec.cls('max_distance.' + mdc); rec.cls('layout.' + layout); rec.cls('dtype.' + dt)
+        if vclass != 'small': rec.ok('target_values_not_float32_representable')
         if tvals is not None: rec.ok('target_values.explicit')
         T = nr.target_mask(img, tvals)
         if T.sum() >= 2 and not T.all():
